@@ -638,6 +638,9 @@ impl PlainSecretParams {
 
         match typ {
             EskType::V3_4 => {
+                // the decrypted data is chosen by whoever made the PKESK: it may be empty
+                ensure!(!decrypted_key.is_empty(), "empty session key data");
+
                 let sym_alg = SymmetricKeyAlgorithm::from(decrypted_key[0]);
                 ensure!(
                     sym_alg != SymmetricKeyAlgorithm::Plaintext,
